@@ -43,6 +43,13 @@ MergePositions == {"collector-ep", "collector-call", "collector-rest", "collecto
 MergeNames == {"owner", "patterns"}
 ValueKinds == {"string", "list", "empty", "nested", "modifier", "multiline", "none"}
 
+\* near-misses of an import statement, in the root or in an imported file, as the first line, after another import, or
+\* as the last bytes of the file (no newline); the line scan that collects imports runs before the parser proper
+ImportLines == {"import", "import ", "import\t", "import\tdep2", "import  dep2", "importer:", " import dep2", "import dep2 as",
+                "import dep2 ~", "import //", "import @", "import dep2@", "import \"dep2\"", "import dep2 dep3", "IMPORT dep2", "import.dep2"}
+ImportWhere == {"root", "imported"}
+ImportPlace == {"first", "second", "lastbytes"}
+
 Init == phase = 0
 Next ==
   \/ /\ phase = 0 /\ phase' = 1
@@ -60,5 +67,8 @@ Next ==
   \/ /\ phase = 4 /\ phase' = 5
      /\ \A pos \in MergePositions, n \in MergeNames, a \in ValueKinds, b \in ValueKinds :
           PrintT(<<"SCN", ToJson([kind |-> "attrmerge", pos |-> pos, name |-> n, first |-> a, second |-> b])>>)
+  \/ /\ phase = 5 /\ phase' = 6
+     /\ \A ln \in ImportLines, w \in ImportWhere, pl \in ImportPlace :
+          PrintT(<<"SCN", ToJson([kind |-> "importline", line |-> ln, where |-> w, place |-> pl])>>)
 Spec == Init /\ [][Next]_vars
 =============================================================================
